@@ -159,6 +159,17 @@ func ClassifyErr(info *types.Info, body *ast.BlockStmt, call *ast.CallExpr) ErrU
 						}
 						return ErrUse{Kind: "if-other", Err: e, If: is}
 					}
+					if is, ok := blk.List[i+1].(*ast.IfStmt); ok && is.Init == nil {
+						if acc := eqNil(info, is.Cond); acc != nil && acc != e && len(is.Body.List) == 1 {
+							if as, ok := is.Body.List[0].(*ast.AssignStmt); ok && as.Tok == token.ASSIGN && len(as.Lhs) == 1 && len(as.Rhs) == 1 &&
+								ObjOf(info, as.Lhs[0]) == acc && ObjOf(info, as.Rhs[0]) == e {
+								if why := accDiscipline(info, body, call, acc); why != "" {
+									return ErrUse{Kind: "unchecked", Err: e, Acc: acc, Why: why}
+								}
+								return ErrUse{Kind: "accumulate", Err: e, Acc: acc, If: is}
+							}
+						}
+					}
 				}
 			}
 		}
